@@ -23,6 +23,11 @@ type Case struct {
 	Abort string `json:"abort,omitempty"`
 	// AbortSent: chunked-cut / cl-short: number of body bytes the backend sends before it breaks off
 	AbortSent int `json:"abort_sent,omitempty"`
+	// The request: Host ("" = helios.test), request target ("" = /) and further request fields (Range,
+	// If-None-Match ...). The scripted backend answers what the case says whatever the request asks for.
+	Host      string   `json:"host,omitempty"`
+	Target    string   `json:"target,omitempty"`
+	ReqHeader []lab.KV `json:"request_header,omitempty"`
 }
 
 var abortKinds = []string{"cl-short", "cl-short", "cl-reset", "chunked-reset", "close-reset", "chunked-cut", "chunked-cut"}
@@ -94,13 +99,20 @@ func cutParts(parts []int, n int) []int {
 func (c *Case) describe() string {
 	if c.Abort != "" {
 		_, _, what := c.abortScript(c.Prog.Body.Bytes())
-		return fmt.Sprintf("terminal=%s chain before=%v [gzip level=%d min_size=%d content_types=%q (%s)] after=%v\nrequest GET / Accept-Encoding=%q\nbackend: status=%d Content-Type=%q Content-Encoding=%q body of %d bytes (compressible=%v, writes %v) that BREAKS OFF: %s",
-			c.Terminal, c.Chain.Before, c.Chain.Gzip.Level, c.Chain.Gzip.MinSize, c.Chain.Gzip.Types, c.Chain.Gzip.Style, c.Chain.After, c.AcceptEncoding,
-			c.Prog.Status, c.Prog.ContentType, c.Prog.Body.Encoding, c.Prog.Body.Len, c.Prog.Body.Compressible, c.Prog.Parts, what)
+		return fmt.Sprintf("terminal=%s chain before=%v [gzip level=%d min_size=%d content_types=%q (%s)] after=%v\n%s\nbackend: status=%d Content-Type=%q Content-Encoding=%q further response fields: %s; body of %d bytes (compressible=%v, writes %v) that BREAKS OFF: %s",
+			c.Terminal, c.Chain.Before, c.Chain.Gzip.Level, c.Chain.Gzip.MinSize, c.Chain.Gzip.Types, c.Chain.Gzip.Style, c.Chain.After, c.describeRequest(),
+			c.Prog.Status, c.Prog.ContentType, c.Prog.Body.Encoding, describeKVs(c.Prog.Extra), c.Prog.Body.Len, c.Prog.Body.Compressible, c.Prog.Parts, what)
 	}
-	return fmt.Sprintf("terminal=%s chain before=%v [gzip level=%d min_size=%d content_types=%q (%s)] after=%v\nrequest GET / Accept-Encoding=%q\nbackend: status=%d (0 = implicit WriteHeader) Content-Type=%q Content-Encoding=%q declares Content-Length=%v framing=%s body=%d bytes (compressible=%v) in writes %s%s",
-		c.Terminal, c.Chain.Before, c.Chain.Gzip.Level, c.Chain.Gzip.MinSize, c.Chain.Gzip.Types, c.Chain.Gzip.Style, c.Chain.After, c.AcceptEncoding,
-		c.Prog.Status, c.Prog.ContentType, c.Prog.Body.Encoding, c.declaresCL(), c.Framing, c.Prog.Body.Len, c.Prog.Body.Compressible, c.describeWrites(), c.describeFlushes())
+	return fmt.Sprintf("terminal=%s chain before=%v [gzip level=%d min_size=%d content_types=%q (%s)] after=%v\n%s\nbackend: status=%d (0 = implicit WriteHeader) Content-Type=%q Content-Encoding=%q further response fields: %s; declares Content-Length=%v framing=%s body=%d bytes%s (compressible=%v) in writes %s%s",
+		c.Terminal, c.Chain.Before, c.Chain.Gzip.Level, c.Chain.Gzip.MinSize, c.Chain.Gzip.Types, c.Chain.Gzip.Style, c.Chain.After, c.describeRequest(),
+		c.Prog.Status, c.Prog.ContentType, c.Prog.Body.Encoding, describeKVs(c.Prog.Extra), c.declaresCL(), c.Framing, c.Prog.Body.Len, c.describeSlice(), c.Prog.Body.Compressible, c.describeWrites(), c.describeFlushes())
+}
+
+func (c *Case) describeSlice() string {
+	if b := c.Prog.Body; b.SliceOf > 0 {
+		return fmt.Sprintf(" = bytes %d-%d of a representation of %d bytes", b.SliceOff, b.SliceOff+b.Len-1, b.SliceOf)
+	}
+	return ""
 }
 
 func (c *Case) describeWrites() string {
@@ -178,11 +190,35 @@ func (c *Case) declaresCL() bool {
 
 func (c *Case) bodiless() bool { return c.Prog.Status == 204 || c.Prog.Status == 304 }
 
+func (c *Case) host() string {
+	if c.Host == "" {
+		return "helios.test"
+	}
+	return c.Host
+}
+
+func (c *Case) target() string {
+	if c.Target == "" {
+		return "/"
+	}
+	return c.Target
+}
+
+// describeRequest renders the request line and the fields that vary.
+func (c *Case) describeRequest() string {
+	s := fmt.Sprintf("request GET %s Host=%s Accept-Encoding=%q", c.target(), c.host(), c.AcceptEncoding)
+	if len(c.ReqHeader) > 0 {
+		s += " " + describeKVs(c.ReqHeader)
+	}
+	return s
+}
+
 func (c *Case) request() *lab.RawRequest {
-	r := &lab.RawRequest{Method: "GET", Target: "/", Framing: "none", Header: []lab.KV{{K: "Host", V: "helios.test"}, {K: "Accept", V: "*/*"}}}
+	r := &lab.RawRequest{Method: "GET", Target: c.target(), Framing: "none", Header: []lab.KV{{K: "Host", V: c.host()}, {K: "Accept", V: "*/*"}}}
 	for _, v := range c.AcceptEncoding {
 		r.Header = append(r.Header, lab.KV{K: "Accept-Encoding", V: v})
 	}
+	r.Header = append(r.Header, c.ReqHeader...)
 	return r
 }
 
@@ -321,6 +357,7 @@ func (c *Case) Run(l *Labs, deadline time.Duration) Verdict {
 		v.Labels = append(v.Labels, "writes>=2")
 	}
 	v.Labels = append(v.Labels, c.flushLabels()...)
+	v.Labels = append(v.Labels, companionLabels(c.Prog.Extra)...)
 	return v
 }
 
@@ -535,8 +572,12 @@ func genExchange(t *rapid.T, ch Chain, terminal string) Case {
 			}
 		}
 	}
-	if rapid.IntRange(0, 3).Draw(t, "extra") == 3 {
+	// the other fields of the backend's response (see headers.go): none in about half of the exchanges
+	switch rapid.IntRange(0, 7).Draw(t, "extra") {
+	case 4:
 		p.Extra = []lab.KV{{K: "Cache-Control", V: "no-store"}, {K: "Vary", V: "Accept-Encoding"}}
+	case 5, 6, 7:
+		p.Extra = genCompanionHeaders(t, 4)
 	}
 	return c
 }
